@@ -6,24 +6,28 @@ SPEC = dict(
     bins=["c14"],
     props=["C14/Props.v"],
     coq_dir="C14",
-    coq_targets=["C14/Proofs.vo", "C14/SetRange.vo", "C14/Examples.vo"],
+    coq_targets=["C14/Proofs.vo", "C14/SetObs.vo", "C14/SetAfter.vo", "C14/SetRange.vo", "C14/Examples.vo"],
     allowed_axioms=[],
-    level_text=("Unbounded Coq theorems about an executable model of read-fonts' IntSet / BitSet / BitPage and RangeSet: "
-                "for EVERY sequence of insert / remove / insert_range / remove_range / extend / remove_all / union / intersect / "
-                "subtract / invert / clear / assign operations on two evolving sets (induction over the operation list), the model "
-                "state is well formed and its membership function equals the mathematical set the operations define, in inclusive "
-                "and inverted mode, over any continuous domain [0, dmax]; per-observation theorems (contains, len = cardinality, "
-                "is_empty, inclusive iteration = strictly ascending enumeration of exactly the members, iter_after, first/last of "
-                "inclusive sets, equality of same-mode sets iff same members) and for RangeSet: after any insert sequence the ranges "
-                "are sorted, disjoint and non-adjacent and cover exactly the union of the inserted ranges; intersection = pointwise meet. "
-                "The model is tied to the code on every run: the Rust harness drives the real IntSet/RangeSet through the public API "
-                "(bounded-exhaustive short sequences over a page-edge-rich 11-value domain, random long sequences over u32/u16/u8 and "
-                "custom domains) and coqc evaluates the model on the same sequences and compares a full observation vector after the "
-                "steps; an independent BTreeSet shadow checks the same observations on the implementation alone."),
+    level_text=("Unbounded Coq theorems about an executable model of read-fonts' IntSet / BitSet / BitPage: for EVERY sequence of "
+                "insert / remove / insert_range / remove_range / extend / remove_all / union / intersect / subtract / invert / clear / "
+                "assign operations on two evolving sets (induction over the operation list) the model state is well formed and its "
+                "membership function equals the mathematical set the operations define (pointwise boolean algebra; invert = complement), "
+                "in inclusive and inverted mode; insert/remove return values; the stored bit set iterates as the strictly ascending "
+                "enumeration of exactly the members (inclusive) / excluded values (inverted) and the cached length is its length; for "
+                "inclusive sets forward/backward iteration, iter_after = ascending members greater than the value, first = min, last = max, is_empty, len = number of members. "
+                "RangeSet: canonical form (sorted, disjoint, non-adjacent, exact coverage) and intersection are proved only over a complete "
+                "finite domain (bounded, by evaluation). The model is tied to the code on every run: the Rust harness drives the real "
+                "IntSet/RangeSet through the public API (bounded-exhaustive short sequences over the page-edge-rich 11-value domain, random "
+                "long sequences over u32/u16/u8 and custom domains) and coqc evaluates the model on the same sequences, comparing a full "
+                "observation vector (len, contains, first/last, iter forward/backward/after, ranges, excluded ranges, intersects_range/set, "
+                "==, cmp, returned bools); an independent BTreeSet shadow checks the same observations, hash agreement and "
+                "discontinuous domains on the implementation alone."),
     level_note=("Trusted: Coq kernel; the hand-written model coq/C14/Model.v (agreement with read-fonts is checked on every run, not proved); "
-                "the in-place page-vector algorithm BitSet::process, BitSetBuilder's page cache and the per-u64-element loops of BitPage (layer L0) "
-                "are tied to the model by the correspondence check only. Discontinuous domains, Ord/Hash, exclusive-mode iteration/ranges, "
-                "intersects_* are tested (model correspondence for continuous domains + BTreeSet shadow), not proved: see not_covered."),
+                "layer L0 (pages vector + page_map indices, the in-place BitSet::process, BitSetBuilder's page cache, binary searches, the "
+                "per-u64-element loops of BitPage) is tied to the model by the correspondence check only. Proved: membership refinement for all "
+                "operations and modes, inclusive-mode observations, len (inverted: relative to excluded values lying in the domain). "
+                "Tested only (model correspondence + shadow): inverted-mode iteration/first/last/ranges/iter_after, iter_ranges, intersects_*, "
+                "Eq/Ord/Hash, discontinuous domains; RangeSet theorems are bounded."),
     technique="Coq proof (N bit lemmas, sorted association lists, induction over operation sequences) over hand-written Gallina model + vm_compute correspondence with read-fonts through the public API",
     modelled=["read-fonts/src/collections/int_set/bitpage.rs: BitPage insert/remove/contains/insert_range/remove_range/len/iter/iter_after/iter_ranges, union/intersect/subtract (as one 512-bit integer)",
               "read-fonts/src/collections/int_set/bitset.rs: BitSet insert/remove/insert_range/remove_range/remove_all/extend/extend_unsorted/contains/len/clear/iter/iter_after/iter_ranges/process(union,intersect,subtract,reversed_subtract)/Eq/Ord (sorted major->page list + cached length)",
@@ -31,7 +35,8 @@ SPEC = dict(
               "read-fonts/src/collections/range_set.rs: RangeSet insert/extend/FromIterator/iter/intersection, OrdAdjacency for u32/u16"],
     not_covered=["discontinuous Domain implementations (Even, TwoIntervals in the harness): implementation-only BTreeSet shadow oracle, not in the Coq model",
                  "Hash (equal sets hash equally; rebuild in the same/opposite mode hashes equally), mixed-direction iteration on one iterator, inclusive_iter, RangeSet<u16>: implementation-only oracle",
-                 "theorems for exclusive-mode iteration / iter_ranges / intersects_range / intersects_set / Ord / mixed-mode Eq: the model of these is tied by correspondence and the shadow oracle only",
+                 "no theorem (model tied by correspondence + shadow oracle only) for: inverted-mode iter/first/last/iter_after, iter_ranges / iter_excluded_ranges, intersects_range, intersects_set, Eq (eq_iff_members), Ord, and that excluded values stay inside the domain",
+                 "RangeSet: rangeset_canonical / rangeset_intersection proved only bounded (all insert sequences of length <= 3 over ranges in [0,5]; intersections over [0,3]); unbounded statements rest on correspondence + sort-and-sweep oracle",
                  "L0 (pages vector + page_map indices, in-place process, binary searches): correspondence only",
                  "serde impls, Display/Debug, sparse-bit-set codec (other half of C14)"],
     assumptions=["element domain is continuous [0, dmax] with dmax < 2^32 (u32, u16, u8, GlyphId, GlyphId16, Tag, NameId and custom continuous domains)",
